@@ -139,6 +139,69 @@ CLAIMED = {
         note="Trusted: as C01. Temporal liveness (fair scheduling implies eventual grant) is stated as deadlock-freedom + enabledness + "
              "no-bypass invariants, not as a temporal theorem; two-worker exploration is exhaustive only for named yield points / selected "
              "form pairs; visibility between critical sections is C04's."),
+    "C06": dict(
+        text="Shared.v LTS (one fulfiller, lists of SharedFuture handles and callback entries created at run time, one atomic operation per "
+             "step: push loop with real and spurious weak-CAS failures, inline run after a failed attach, SetResultImpl's walk with its "
+             "DecRef placement, the reference counter with the 4/3 initial values, slot Unset|Set r|Moved) with one inductive invariant proves "
+             "for every schedule and any number of copies/callbacks: every attached callback/awaiter fires exactly once, only after Set, with "
+             "the value set; no Get/Touch/await_resume/copy ever reads an unset, moved-from or freed value; a move happens only when the "
+             "counter proves exclusivity (refs==1 for Get&&/Touch&&, refs==2 in the last callback); refs = promise side + live copies + jobs "
+             "holding a reference, never underflows, freed exactly once after all accesses; Ready()/await_ready true implies readable (proved "
+             "for the readiness rule and thresholds READ FROM THE SOURCE by a translator, with a refutation witness for the old rule). Tied to "
+             "the code by replaying event by event in Coq every distinct trace of the real code (exhaustive DFS for 1+1 fibers x <= 2 ops and "
+             "1+2 x 1 op incl. a spurious weak-CAS failure; preemption-bounded DFS for 1+2 x 2 ops; seeded random for 1+3..4 x <= 4 ops).",
+        design="DESIGN.md §5 C06, §10",
+        technique="Coq invariant proof (all schedules, unbounded copies) + translator for readiness rule/thresholds + exhaustive/bounded/random trace correspondence",
+        note="Trusted: as C01, plus checks/c06_translate.py. Not modelled: promise-side Connect/Share, SharedCore::Retire, When*/Join on "
+             "shared futures (C09/C10), the Wait event's mutex/condvar, use of a future after Get&&/Touch&&."),
+    "C16": dict(
+        text="Machine-checked invariant of the Event transition system (OneShotEvent head word Stack|AllDone with CAS-weak push and "
+             "exchange+ordered calls, AtomicCounter with SetDeleter; any number of Add/Done threads, of blocking / timed (heap TimedWaiter, two "
+             "references) / co_await inline / sticky / on-executor / raw-Job waiters, of attached and consumed futures with their producers) "
+             "proves for every schedule, under the documented rule of use given as a boolean predicate on traces (shown implied by 'Add only "
+             "while non-zero'): every release happens with the count at zero and zero is stable; zero means every Add was matched and every "
+             "added future completed; each waiter released at most once; after all-done nobody registers and a late waiter passes; at "
+             "quiescence nobody is parked; the TimedWaiter is destroyed exactly once and never touched afterwards whichever of timeout/Set "
+             "comes first; consumed states are released exactly once, attached ones never, an owner's Ready() answers exactly 'completed' and "
+             "reads the stored value; SetImpl never dereferences the sentinel; OneShotEvent alone: released only after Set. Tied to the code "
+             "by replaying in Coq every distinct trace of the real WaitGroup/OneShotEvent (exhaustive DFS for one waiter of each kind vs the "
+             "final Done/Set, timed waiters for several deadlines, two pushers with spurious weak-CAS failures, Attach/Consume vs the producer; "
+             "seeded random for 3 workers + 3 mixed waiters + futures; thorough tier also under ASan).",
+        design="DESIGN.md §5 C16, §10",
+        technique="Coq invariant proof over an executable LTS (per-waiter boolean invariant + frame lemma) + exhaustive/random trace correspondence + ASan",
+        note="Trusted: as C01. Partial: OneShotEvent::Call/Reset, multi-future or NeedAdd=false Attach/Consume and counter wrap-around are outside "
+             "the model; mutex/condvar internals are C18's, memory orders C04's."),
+    "C19": dict(
+        text="For every kind of T (signed/unsigned 8-64-bit, bool, pointer with any element size, floating as shape, atomic_flag), every "
+             "operation std::atomic has, both cv-overloads, all representable values and every single-threaded operation sequence incl. "
+             "fences, the FIBER backend (fault wrapper over the fiber re-implementation) and the THREAD backend (wrapper over std::atomic) "
+             "return the same value and leave the same stored and expected value as the std::atomic contract; an injected spurious "
+             "compare_exchange_weak failure returns false, loads expected and changes nothing; compare_exchange_strong never fails "
+             "spuriously; every memory order the wrapper hands down is admissible; no operation is undefined under the strict C++ reading. "
+             "Proved in Coq over a model REGENERATED from the sources on every run by a statement-level translator. Tied to the compiled "
+             "code by translation validation: the same boundary/random/order/NaN/overflow sequences run on yaclib_std::atomic and "
+             "std::atomic in configs F, T (libstdc++ assertions) and FA (UBSan) and are evaluated by the generated models inside Coq step "
+             "by step; all 8-bit (value, argument) pairs are swept exhaustively against std::atomic.",
+        design="DESIGN.md §5 C19, §10",
+        technique="Coq proofs over a source-translated model with typed C++ scalar semantics + differential translation-validation harness (three build configs, UBSan, exhaustive 8-bit sweep)",
+        category="proof",
+        note="Trusted: Coq kernel + vm_compute; AtomicCSem.v (meaning of the statement vocabulary, x86-64 integer widths); AtomicStd.v (validated "
+             "against libstdc++ on every run); tools/translate_fiber_atomic.py (validated on every run); harness and choose hook; UBSan. "
+             "Floating arithmetic uninterpreted; wait/notify, default construction, is_lock_free and the meaning of memory orders beyond "
+             "preconditions not covered."),
+    "C20": dict(
+        text="Sequential allocation model (Alloc.v): proved for pipelines of any length/nesting that the blocks requested never exceed the "
+             "executed steps (exactly one per step carrying a functor/result/frame, none for Detach() and conversions, unwrapping free), an "
+             "explicit n-independent constant per combinator (4 WhenAll, 2 WhenAny/Join, +1 iterator form over shared futures; tight, equal "
+             "for all n>=2), zero for Wait/WaitFor/WaitUntil, Get, Strand::Submit(job) and co_await on futures. Tied to the code by exact "
+             "program correspondence in the shipped configurations B and BC: counting operator new, typed cell table (1092 then / 126 "
+             "detach / 180 run cells, variadic forms n=1..64), every program's blocks, steps, callbacks, final state and per-API-call "
+             "block multiset equal to the model evaluated in Coq; independent oracle from the property text.",
+        design="DESIGN.md §5 C20, §10",
+        technique="Coq proofs over an executable allocation model + exact program correspondence with a counting operator new (B, BC)",
+        note="Trusted: Coq kernel + vm_compute; the two printers in checks/c20.py; harness/h_c20.cpp (new-replacement, interpreter, step "
+             "counter). Counts operator new calls only (exceptions use malloc; coroutine frame = 1 block per call). Not covered: thread "
+             "pools, never-started Task cancellation, steps inheriting the executor of an awaiting coroutine (skipped, oracle still applied)."),
 }
 
 PENDING = {}
